@@ -359,8 +359,9 @@ func (self *Transformer) IterOnceWhileLoop(node ast.AnalyzedStatement) ast.Analy
 }
 
 func (self *Transformer) WhileStmtAsLoop(node ast.AnalyzedWhileStatement) []ast.AnalyzedStatement {
-	if node.Condition.Type().Kind() == ast.NeverTypeKind {
-		// This is required in order to prevent putting a `break` into a new loop, which defeats the purpose
+	if node.Condition.Type().Kind() == ast.NeverTypeKind || self.exprCanControlLoop(node.Condition) {
+		// This is required in order to prevent putting a `break` into a new loop, which defeats the purpose:
+		// a `break` / `continue` inside of the condition belongs to the loop around this `while`
 		return []ast.AnalyzedStatement{node}
 	}
 
